@@ -50,7 +50,7 @@ PROBES = [
 FAULT_KINDS = ["empty_delivery", "single_sample_delivery", "readonly_delivery"]
 
 
-def warmup():
+def warmup(tier=None):
     pass
 
 
